@@ -50,8 +50,10 @@ fn main() {
 
         // probe 2: closed() dropped -> worker cancelled?
         {
+            if std::env::var("NOCLOSED").is_err() {
             let r = timeout(Duration::from_millis(50), cconn.closed()).await;
             println!("probe2 closed-timeout={:?}", r.is_err());
+            }
             // now is the connection still alive?
             let mut s = cconn.open_uni().unwrap();
             use compio_io::AsyncWriteExt;
@@ -59,8 +61,17 @@ fn main() {
             s.finish().unwrap();
             let r = timeout(Duration::from_millis(1000), sconn.accept_uni()).await;
             println!("probe2 accept after cancelled closed(): {:?}", r.map(|r| r.is_ok()));
-            let r = hx_common::catch(|| 0);
-            let _ = r;
+            if std::env::var("NOCLOSED").is_ok() {
+                let c1 = cconn.clone();
+                let t1 = compio_runtime::spawn(async move { let _ = c1.closed().await; });
+                sleep(Duration::from_millis(20)).await;
+                let c2 = cconn.clone();
+                let t2 = compio_runtime::spawn(async move { let _ = c2.closed().await; });
+                sleep(Duration::from_millis(20)).await;
+                let r2 = timeout(Duration::from_millis(100), t2).await;
+                println!("probe3 second closed(): {:?}", r2.map(|r| r.is_err()));
+                drop(t1);
+            }
         }
         sleep(Duration::from_millis(10)).await;
     });
